@@ -79,6 +79,77 @@ func lexerRules(ctx *Ctx, r *Result) {
 
 	// ---- R13.7 -----------------------------------------------------------
 	hostScanTable(ctx, r)
+
+	// ---- R13.9 -----------------------------------------------------------
+	defaultPortTable(ctx, r)
+}
+
+// defaultPortTable: the predicate that prohibits default ports is true for
+// exactly (http, 80) and (https, 443) — decided on its truth table.
+func defaultPortTable(ctx *Ctx, r *Result) {
+	p := ctx.P
+	r.rule("R13.9", "isDefaultPortForScheme(scheme, port) ⇔ (scheme = http ∧ port = 80) ∨ (scheme = https ∧ port = 443)", 1)
+	fn := p.Func(pkgOrigins, "isDefaultPortForScheme")
+	if fn == nil || len(fn.Params) != 2 {
+		r.undecided("R13.9", "isDefaultPortForScheme", "anchor not found")
+		return
+	}
+	ph, e1 := p.ConstInt(pkgOrigins, "portHTTP")
+	phs, e2 := p.ConstInt(pkgOrigins, "portHTTPS")
+	sh, e3 := p.ConstString(pkgOrigins, "schemeHTTP")
+	shs, e4 := p.ConstString(pkgOrigins, "schemeHTTPS")
+	if e1 != nil || e2 != nil || e3 != nil || e4 != nil {
+		r.undecided("R13.9", "isDefaultPortForScheme", fmt.Sprint(e1, e2, e3, e4))
+		return
+	}
+	var sc, po string
+	for _, q := range fn.Params {
+		if types.TypeString(q.Type(), nil) == "string" {
+			sc = "param:" + q.Name()
+		} else {
+			po = "param:" + q.Name()
+		}
+	}
+	x := p.NewExec(p.InlineAllPolicy)
+	paths := ExpandBoolRet(x.Summarize(fn), 0)
+	r.Paths += len(paths)
+	atoms := []string{
+		fmt.Sprintf("bin:==(%s, %d)", po, ph), fmt.Sprintf("bin:==(%s, %q)", sc, sh),
+		fmt.Sprintf("bin:==(%s, %d)", po, phs), fmt.Sprintf("bin:==(%s, %q)", sc, shs),
+	}
+	bad := strings.Join(x.Problems, ";")
+	cells := 0
+	for _, pa := range paths {
+		if len(pa.Rets) != 1 || pa.Rets[0].Op != "const" {
+			bad = "result is not a boolean combination of comparisons"
+			continue
+		}
+		got := pa.Rets[0].IsConst("true")
+		for v := 0; v < 16; v++ {
+			val := func(i int) bool { return v>>i&1 == 1 }
+			if (val(0) && val(2) && ph != phs) || (val(1) && val(3) && sh != shs) {
+				continue // a port (scheme) equals one constant only
+			}
+			consistent := true
+			for i, a := range atoms {
+				if k := pa.Val(a); k != 0 && (k == 1) != val(i) {
+					consistent = false
+				}
+			}
+			if !consistent {
+				continue
+			}
+			cells++
+			want := val(0) && val(1) || val(2) && val(3)
+			if got != want {
+				bad = fmt.Sprintf("for port==%d:%v scheme==%q:%v port==%d:%v scheme==%q:%v the predicate yields %v, documented %v", ph, val(0), sh, val(1), phs, val(2), shs, val(3), got, want)
+			}
+		}
+	}
+	if cells < 9 {
+		bad = fmt.Sprintf("only %d cells of the truth table are covered by the paths", cells)
+	}
+	r.check(bad == "", "R13.9", "isDefaultPortForScheme", p.Pos(fn.Pos()), bad, cells)
 }
 
 // idnaProfile: the package initialiser of origins builds the profile from
